@@ -899,6 +899,8 @@ class OpAdd:
         _, perm = _align_other(A, env.slots[b].ref)
         if perm:
             o['cond'] = 'labels-permuted'
+        elif a == b and isinstance(alpha, complex) and alpha.imag != 0:
+            o['cond'] = 'same-operand+complex-prefactor'
         return o
 
     @staticmethod
@@ -2638,6 +2640,10 @@ class ProgramRunner:
                 symptom = 'wrong-result-or-ValueError'
             elif symptom in ('duplicate-qdata-rows', 'qdata_sorted-false-claim'):
                 symptom = 'merge-of-unsorted-qdata'
+        if 'same-operand' in parts and self.config == 'cy' and symptom == 'dense-differs':
+            opname, parts = 'iadd_prefactor_other', ['same-operand', 'complex-prefactor', 'cy']
+        if [c for c in parts if c not in struct]:
+            parts = [c for c in parts if c not in struct]       # an operation-specific condition takes precedence
         if opname == 'charges.change_charge' and symptom in ('qtotal-differs', 'raises-ValueError', 'qtotal-range'):
             parts, symptom = [], 'qtotal-not-reduced'
         key = '%s:%s:%s:%s' % (prop, opname, '+'.join(parts) or '-', symptom)
@@ -2714,7 +2720,7 @@ class ProgramRunner:
                     self.fail('C02', opname, cond, 'operand-invariant-broken', 'after %s another live tensor is inconsistent: %s' % (opname, text))
                 seen.add('operand-invariant-broken')
                 continue
-            self.fail('C02', opname, (cond or '') + role, kind, text)
+            self.fail('C02', opname, role.strip('+') if role else cond, kind, text)
         if bad:
             kinds = {k for k, _ in bad}
             if kinds <= {'qdata-not-contiguous', 'own-sanity-raises', 'test_sanity:qdata-not-contiguous'}:
